@@ -1003,7 +1003,11 @@ func readTcbInfoTcbStatus(tcbInfo pcs.TcbInfo, tdQuoteBody *pb.TDQuoteBody, pckC
 			return pcs.TcbLevel{}, err
 		}
 		logger.V(2).Info("Tdx Module TCB Status found: ", matchingTdxModuleTcbLevel.TcbStatus)
-		return *matchingTdxModuleTcbLevel, nil
+		// The TDX module's level decides only when the platform's matching level is up to date;
+		// otherwise the platform level's status (OutOfDate, Revoked, ...) stands.
+		if matchingTcbLevel.TcbStatus == pcs.TcbComponentStatusUpToDate {
+			return *matchingTdxModuleTcbLevel, nil
+		}
 	}
 
 	logger.V(2).Info("TCB Status found: ", matchingTcbLevel.TcbStatus)
